@@ -46,6 +46,7 @@ func checkC17(ctx *Ctx, r *Report) {
 	c17MethodChangeLocated(ctx, r)
 	c17FifthRound(ctx, r)
 	c17SixthRound(ctx, r)
+	c17SeventhRound(ctx, r)
 	c20UnionSingleMember(ctx, r) // an entry holding two rules applied one of them
 	c16DismissalNeedsLostOptions(ctx, r)
 	c18LiteralsShareSlices(ctx, r)
@@ -2493,4 +2494,183 @@ func k17ReturnsOption(b *ast.BlockStmt) bool {
 		}
 	}
 	return false
+}
+
+// c17SeventhRound — fifth hunt:
+//   - promote_options_to_constructor compares the name of every argument it adds with those the constructor already
+//     has (as struct_fields_as_arguments does for options): `constructor(name string, name string)` otherwise;
+//   - merge_into / compose: a factory calls the constructor without argument — mergeBuilderInto leaves with an error
+//     when the source has factories and the destination a constructor with parameters (AddFactory and
+//     PromoteOptionsToConstructor each refuse that combination; the merge did not);
+//   - the option rules replace the options of a builder and its factories call options by name: what a rule makes of an
+//     option is handed, with the builder, to a function that walks the factories and can fail;
+//   - add_factory stores a copy of the factory the rule holds (the rule is applied to every selected builder, for every
+//     language).
+func c17SeventhRound(ctx *Ctx, r *Report) {
+	n := 0
+	bp := ctx.Pkg("internal/veneers/builder")
+	if bp == nil {
+		r.Undecided("anchor lost: internal/veneers/builder")
+		return
+	}
+	info := bp.TypesInfo
+	// (a)
+	if fn := ctx.LookupFunc("internal/veneers/builder", "PromoteOptionsToConstructor"); fn == nil {
+		r.Undecided("anchor lost: builder.PromoteOptionsToConstructor")
+	} else if fd, _ := ctx.DeclOf(fn); fd != nil {
+		var appendPos token.Pos
+		ast.Inspect(fd.Body, func(m ast.Node) bool {
+			if as, ok := m.(*ast.AssignStmt); ok && len(as.Lhs) == 1 && strings.HasSuffix(exprString(as.Lhs[0]), ".Constructor.Args") {
+				appendPos = as.Pos()
+			}
+			return true
+		})
+		compares := false
+		ast.Inspect(fd.Body, func(m ast.Node) bool {
+			rs, ok := m.(*ast.RangeStmt)
+			if !ok || !strings.HasSuffix(exprString(rs.X), ".Constructor.Args") || !appendPos.IsValid() || rs.Pos() > appendPos {
+				return true
+			}
+			ast.Inspect(rs.Body, func(k ast.Node) bool {
+				is, ok := k.(*ast.IfStmt)
+				if !ok || len(is.Body.List) == 0 {
+					return true
+				}
+				be, ok := ast.Unparen(is.Cond).(*ast.BinaryExpr)
+				if !ok || be.Op != token.EQL || !strings.HasSuffix(exprString(be.X), ".Name") || !strings.HasSuffix(exprString(be.Y), ".Name") {
+					return true
+				}
+				if ret, ok := is.Body.List[len(is.Body.List)-1].(*ast.ReturnStmt); ok && len(ret.Results) == 2 && !isNilIdent(info, ret.Results[1]) {
+					compares = true
+				}
+				return true
+			})
+			return true
+		})
+		n++
+		r.Check(appendPos.IsValid() && compares, "effects/argument-names-distinct", "builder.PromoteOptionsToConstructor adds arguments to the constructor", fd.Pos(), "after comparing their names with those the constructor has, with an error exit",
+			"PromoteOptionsToConstructor appends the arguments of the promoted options to the constructor whatever it already declares: promoting `name` and `ownerName` (an option merged from Owner, renamed, whose argument is still `name`) gives `constructor(name string, name string)` — name redeclared in Go, SyntaxError: duplicate argument in Python")
+	}
+	// (b)
+	if fn := ctx.LookupFunc("internal/veneers/builder", "mergeBuilderInto"); fn == nil {
+		r.Undecided("anchor lost: builder.mergeBuilderInto")
+	} else if fd, _ := ctx.DeclOf(fn); fd != nil {
+		refuses := false
+		ast.Inspect(fd.Body, func(m ast.Node) bool {
+			is, ok := m.(*ast.IfStmt)
+			if !ok || len(is.Body.List) == 0 {
+				return true
+			}
+			cond := exprString(is.Cond)
+			if !strings.Contains(cond, ".Factories") || !strings.Contains(cond, ".Constructor.Args") {
+				return true
+			}
+			if ret, ok := is.Body.List[len(is.Body.List)-1].(*ast.ReturnStmt); ok && len(ret.Results) == 2 && !isNilIdent(info, ret.Results[1]) {
+				refuses = true
+			}
+			return true
+		})
+		n++
+		r.Check(refuses, "effects/factories-need-a-bare-constructor", "builder.mergeBuilderInto copies the factories of the source", fd.Pos(), "unless the destination's constructor has parameters: an error",
+			"mergeBuilderInto copies every factory of the source into the destination without looking at the destination's constructor: Dashboard (name promoted to the constructor) merged with Owner (factory Anonymous) gets `Anonymous()`, which calls NewDashboardBuilder() — not enough arguments in call; AddFactory and PromoteOptionsToConstructor each refuse this combination")
+	}
+	// (d)
+	if fn := ctx.LookupFunc("internal/veneers/builder", "AddFactory"); fn == nil {
+		r.Undecided("anchor lost: builder.AddFactory")
+	} else if fd, _ := ctx.DeclOf(fn); fd != nil {
+		var param types.Object
+		sig := fn.Type().(*types.Signature)
+		for i := 0; i < sig.Params().Len(); i++ {
+			if namedName(sig.Params().At(i).Type()) == "BuilderFactory" {
+				param = sig.Params().At(i)
+			}
+		}
+		shared, copied := false, false
+		ast.Inspect(fd.Body, func(m ast.Node) bool {
+			c, ok := m.(*ast.CallExpr)
+			if !ok {
+				return true
+			}
+			if id, ok := ast.Unparen(c.Fun).(*ast.Ident); !ok || id.Name != "append" || len(c.Args) < 2 || !strings.HasSuffix(exprString(c.Args[0]), ".Factories") {
+				return true
+			}
+			for _, a := range c.Args[1:] {
+				if param != nil && isIdentOf(info, a, param) {
+					shared = true
+				}
+				if cc, ok := ast.Unparen(a).(*ast.CallExpr); ok && isCopyCall(info, cc) {
+					copied = true
+				}
+			}
+			return true
+		})
+		n++
+		r.Check(copied && !shared, "ownership/factory-copied-from-the-rule", "builder.AddFactory stores the factory of the rule", fd.Pos(), "as a deep copy",
+			"AddFactory appends the very BuilderFactory the rule holds to every selected builder, for every language: its OptionCalls are one array — what renames a call for Go (the factories follow the option rules) renames it for Python too")
+	}
+	// (c)
+	if fn := ctx.LookupMethod("internal/veneers/rewrite", "Rewriter", "applyOptionRules"); fn == nil {
+		r.Undecided("anchor lost: rewrite.Rewriter.applyOptionRules")
+	} else if fd, p := ctx.DeclOf(fn); fd != nil {
+		rinfo := p.TypesInfo
+		// variables holding the result of rule.Action
+		results := map[types.Object]bool{}
+		ast.Inspect(fd.Body, func(m ast.Node) bool {
+			if as, ok := m.(*ast.AssignStmt); ok && len(as.Lhs) == 1 && len(as.Rhs) == 1 {
+				if c, ok := ast.Unparen(as.Rhs[0]).(*ast.CallExpr); ok && strings.HasSuffix(exprString(c.Fun), ".Action") {
+					if id, ok := as.Lhs[0].(*ast.Ident); ok {
+						results[objOf(rinfo, id)] = true
+					}
+				}
+			}
+			return true
+		})
+		follows := false
+		ast.Inspect(fd.Body, func(m ast.Node) bool {
+			c, ok := m.(*ast.CallExpr)
+			if !ok {
+				return true
+			}
+			f := callee(rinfo, c)
+			if f == nil || f.Pkg() != p.Types {
+				return true
+			}
+			takesResult := false
+			for _, a := range c.Args {
+				if id, ok := ast.Unparen(a).(*ast.Ident); ok && results[objOf(rinfo, id)] {
+					takesResult = true
+				}
+			}
+			if !takesResult {
+				return true
+			}
+			hfd, _ := ctx.DeclOf(f)
+			if hfd == nil || hfd.Body == nil {
+				return true
+			}
+			walksFactories, canFail := false, false
+			ast.Inspect(hfd.Body, func(k ast.Node) bool {
+				switch x := k.(type) {
+				case *ast.RangeStmt:
+					if strings.HasSuffix(exprString(x.X), ".Factories") {
+						walksFactories = true
+					}
+				case *ast.ReturnStmt:
+					if len(x.Results) == 1 && !isNilIdent(rinfo, x.Results[0]) {
+						canFail = true
+					}
+				}
+				return true
+			})
+			if walksFactories && canFail {
+				follows = true
+			}
+			return true
+		})
+		n++
+		r.Check(follows, "effects/factories-follow-option-rules", "rewrite.Rewriter.applyOptionRules replaces the options of a builder", fd.Pos(), "what a rule makes of an option is handed to a function that walks the factories of the builder and can fail",
+			"applyOptionRules replaces Options and never looks at Factories, which call options by name: the common veneers add the factory Titled (calls `title`), the Go veneers rename Dashboard.title to heading — the Go factory still calls builder.Title, undefined; an omitted option leaves the same dangling call")
+	}
+	r.Count("hunted clauses of the veneers (7th round)", n)
+	r.Floor("hunted clauses of the veneers (7th round)", 4)
 }
